@@ -148,14 +148,17 @@ structure ArrCell (K : Type) where
 
 /-- an `Empirical1D` instance: `points[0]` and `lookup_table` are (possibly reversed) views of two
 array cells; `fill_value is np.nan` is the one field a public call re-assigns -/
-structure TableCell where
+structure TableCell (K : Type) where
   pts : Nat
   vals : Nat
   /-- descending input: the constructor keeps `x[::-1]`, `y[::-1]` (views) -/
   rev : Bool
   keepNeg : Bool
+  /-- `fill_value is np.nan`: evaluate at the nearest end point outside the table -/
   fillNaN : Bool
-  deriving DecidableEq, Repr
+  /-- the number `interpn` fills in outside the table when `fill_value` is not NaN (0 unless the
+  constructor was given another `fill_value=`) -/
+  fillVal : K
 
 /-- `_model` of a spectrum object: a tree whose tabulated leaves are references -/
 inductive HTree (K : Type)
@@ -178,7 +181,7 @@ structure Obj (K : Type) where
 structure Heap (K : Type) where
   arrays : List (ArrCell K)
   dicts : List Dict
-  tables : List TableCell
+  tables : List (TableCell K)
   objs : List (Obj K)
   npErr : NpErr
   /-- `astropy.units.get_current_unit_registry()`: enabled units and equivalencies, as a token -/
@@ -201,7 +204,7 @@ inductive Loc
 inductive Cell (K : Type)
   | arr (c : ArrCell K)
   | dict (d : Dict)
-  | table (t : TableCell)
+  | table (t : TableCell K)
   | model (k : Kind) (t : HTree K) (spec band : Option Nat)
   | z (s : ZState K)
   | md (m : Meta)
@@ -230,7 +233,7 @@ def upd {α : Type} : List α → Nat → (α → α) → List α
 
 inductive Effect (K : Type)
   | allocArr (c : ArrCell K)
-  | allocTable (t : TableCell)
+  | allocTable (t : TableCell K)
   | allocObj (o : Obj K)
   | writeArr (i : Nat) (data : List K)     -- store into an existing buffer
   | writeDict (i : Nat) (d : Dict)         -- mutate an existing dict
@@ -271,14 +274,23 @@ def writeSet (es : List (Effect K)) : List Loc := es.filterMap Effect.loc
 
 /-! ### reading objects -/
 
-/-- the table an `Empirical1D` instance presents: its views resolved through the array cells -/
-def Heap.table (h : Heap K) (m : Nat) : Option (Table K) := do
+/-- the table an `Empirical1D` instance presents: its views resolved through the array cells; and the
+number filled in outside it -/
+def Heap.table (h : Heap K) (m : Nat) : Option (Table K × K) := do
   let c ← h.tables[m]?
   let x ← h.arrays[c.pts]?
   let y ← h.arrays[c.vals]?
-  pure { pts := if c.rev then x.data.reverse else x.data,
-         vals := if c.rev then y.data.reverse else y.data,
-         keepNeg := c.keepNeg, fillNaN := c.fillNaN }
+  pure ({ pts := if c.rev then x.data.reverse else x.data,
+          vals := if c.rev then y.data.reverse else y.data,
+          keepNeg := c.keepNeg, fillNaN := c.fillNaN }, c.fillVal)
+
+/-- `Empirical1D.evaluate` with an arbitrary `fill_value`: inside the table, and outside it when
+`fill_value is np.nan`, `Table.eval`; otherwise `interpn` fills in the number given to the constructor,
+which then goes through `_process_neg_flux` like every other value -/
+def tabEval (t : Table K) (fillVal x : K) : K :=
+  if (x < t.pts.headD 0 ∨ x > t.pts.getLastD 0) ∧ t.fillNaN = false then
+    (if t.keepNeg then fillVal else (if fillVal < 0 then 0 else fillVal))
+  else t.eval x
 
 /-- what evaluation needs from outside: constants, transcendental functions, Planck's law
 (photon radiance at temperature `T` and wavelength `x`; C16's subject) -/
@@ -288,7 +300,7 @@ structure HEnv (K : Type) where
 
 def HTree.eval (env : HEnv K) (h : Heap K) : HTree K → K → Except Err K
   | .tab m, x => match h.table m with
-      | some t => .ok (t.eval x)
+      | some (t, c) => .ok (tabEval t c x)
       | none => .error .lookupError
   | .ana l, x => l.eval env.E x
   | .bb temp, x => if temp < 0 then .error .valueError else .ok (env.planck temp x)
@@ -384,6 +396,12 @@ inductive WaveArg (K : Type)
   | cell (i : Nat) (conv : List K)       -- a caller-owned array (`conv`: its values in Å when it is a
                                          -- Quantity in another unit)
 
+/-- the keyword `fill_value=` of `Empirical1D` -/
+inductive FillArg (K : Type)
+  | default               -- not given: 0 for a table whose end values are 0, NaN (extrapolate) otherwise
+  | nan                   -- `np.nan`: extrapolate
+  | value (c : K)         -- a number: filled in outside the table, no extrapolation
+
 inductive Force | none | extrap | taper | bogus
   deriving DecidableEq, Repr
 
@@ -417,9 +435,9 @@ inductive Call (K : Type)
   /-- `cls(Empirical1D, points=x, lookup_table=y, keep_neg=…, meta=d)` with caller-owned `x`, `y`, `d`;
   `zi`: the keywords `z=…, z_type=…` of a `SourceSpectrum` (the constructor assigns `z_type`, then `z`,
   before it builds the model);
-  `fillZero`: the keyword `fill_value=0` is given as well (no extrapolation) -/
+  `fill`: the keyword `fill_value=` -/
   | newEmpirical (kind : Kind) (x y : Nat) (xconv yconv : List K) (keepNeg : Bool) (md : Option Nat)
-      (fillZero : Bool) (zi : Option (K × ZType))
+      (fill : FillArg K) (zi : Option (K × ZType))
   /-- `cls(Box1D | ConstFlux1D | Gaussian1D | …, parameters)` -/
   | newAnalytic (kind : Kind) (l : Leaf K) (zi : Option (K × ZType))
   /-- `SourceSpectrum(BlackBody1D, temperature=T)`; `label`: the text `'bb({0})'.format(T)` the model
@@ -509,7 +527,7 @@ internal unit (as found); the repaired code copies `y` first when something has 
 A one-point table then fails in `is_tapered` (`[::size-1]`, step 0 → `ValueError`) — after the
 store. -/
 def newEmpirical (fx : Fixes) (h : Heap K) (kind : Kind) (x y : Nat) (xconv yconv : List K)
-    (keepNeg : Bool) (md : Option Nat) (fillZero : Bool) (zi : Option (K × ZType)) :
+    (keepNeg : Bool) (md : Option Nat) (fill : FillArg K) (zi : Option (K × ZType)) :
     List (Effect K) × Outcome K :=
   match h.arrays[x]?, h.arrays[y]? with
   | some cx, some cy =>
@@ -537,10 +555,16 @@ def newEmpirical (fx : Fixes) (h : Heap K) (kind : Kind) (x y : Nat) (xconv ycon
     let yref :=
       if cy.container.aliased then (if doClip && fx.copyBeforeClip then n1 else y) else n1
     if yd.length = 1 then (ex ++ ey, .err .valueError) else
-    let tcell : TableCell :=
+    let tcell : TableCell K :=
       { pts := xref, vals := yref, rev := isDesc xd, keepNeg := keepNeg,
         -- tapered: `kwargs.get('fill_value', 0)`, otherwise `kwargs.get('fill_value', np.nan)`
-        fillNaN := !fillZero && !endsZero yFinal }
+        fillNaN := (match fill with
+          | .default => !endsZero yFinal
+          | .nan => true
+          | .value _ => false),
+        fillVal := (match fill with
+          | .value c => c
+          | _ => 0) }
     let entries : Dict := match md with
       | some d => (h.dicts[d]?).getD []
       | none => []
@@ -656,7 +680,7 @@ def normalize (h : Heap K) (o band : Nat) (force : Bool) (stat : Overlap) (k : K
 def rootEnds (h : Heap K) (A : Obj K) : Option (K × K × Bool) :=
   match A.tree.rootTab? with
   | some m => match h.table m with
-      | some t => some (t.vals.headD 0, t.vals.getLastD 0, t.keepNeg)
+      | some (t, _) => some (t.vals.headD 0, t.vals.getLastD 0, t.keepNeg)
       | none => none
   | none => none
 
@@ -680,8 +704,8 @@ def taperBuild (A : Obj K) (d : TaperData K) (front back keep : Bool) (nArr nTab
   let xb := if back then xa ++ [xl ^ 2 / xl2] else xa
   let yb := if back then ya ++ [0] else ya
   let yc := clipNeg keep yb
-  let tcell : TableCell :=
-    { pts := nArr, vals := nArr + 1, rev := false, keepNeg := keep, fillNaN := !endsZero yc.1 }
+  let tcell : TableCell K :=
+    { pts := nArr, vals := nArr + 1, rev := false, keepNeg := keep, fillNaN := !endsZero yc.1, fillVal := 0 }
   ([.allocArr ⟨xb, .ndarray, false⟩, .allocArr ⟨yc.1, .ndarray, false⟩, .allocTable tcell],
    freshObj A.kind (.tab nTab) ⟨negWarning yc.2, []⟩)
 
